@@ -329,6 +329,9 @@ func VerifH_C11_relay_header() {
 		r.(*gateway.RPCRelayV2Header).Header = bh
 		return nil
 	}
+	if vapi.Bool("peer-already-gone") {
+		p.err = errors.New("connection closed")
+	}
 	err := s.handleRPC(types.NewSpecifier("RelayV2Header"), nil, p)
 	_ = err
 	banned := len(pm.bans) > 0
